@@ -46,6 +46,7 @@ TERMS = ['\n', '\n', '\r', '\r\n', ' ', ' ']
 LTS = '\n\r  '
 
 HAND = [
+    'x = ((a + b)) * 2;', '((a));', 'f(((a)), ((b)));', 'y = (((1)));', 'x = [((a)), ({})];', 'if (((a))) ((b));',
     'a\nb', 'a\n(b)', 'a = b\n++c', 'x\n++\ny', 'return\na', 'function f(){return 1}', 'function f(){return a + b;}',
     'function f(){return}', 'function f(){throw e}', 'while(1){break}', 'l: while(1){break l}', 'l: while(1){continue l;}',
     'while(1) continue\nx', 'throw new E(1)', 'a = b / c / d', 'a = /re/g', 'x = a / /re/.test(b)', 'if (a) /re/.test(b)',
